@@ -36,8 +36,6 @@ impl<'de, R: Reader<'de>> Parser<R> {
 //@end
 
 //@extract file=src/parser.rs impl="Parser<R>" fn=get_from_object
-//@attr
-    #[verifier::loop_isolation(false)]
 //@subst /key\.len\(\) == target_key\.len\(\) && key\.as_ref\(\) == target_key\.as_bytes\(\)/ => key_matches(&key, target_key)
 //@subst /&"a JSON object"/ => "a JSON object"
 //@sig
@@ -67,6 +65,7 @@ impl<'de, R: Reader<'de>> Parser<R> {
         }
 //@loop 1
             invariant self.pinv(), self.same_doc(old(self)),
+                s == self.read.data(), i0 == old(self).read.idx(), tk == target_key.spec_bytes(), 0 <= i0,
                 i0 < self.read.idx(),
                 members_end(s, self.read.idx() as int).is_some(),
                 object_lookup(s, i0, tk) == find_member(s, self.read.idx() as int, tk),
